@@ -100,6 +100,44 @@ def h_port_type(si: int, wi: int, d0: int, d1: int, d2: int) -> bool:
     return run_native(_port_type_case, scope, written, decls)
 
 
+def _two_ports_case(scope: List[str], w1: List[str], w2: List[str], pa: List[str], pb: List[str]) -> bool:
+    """Two ports of one component, each with its own spelling: every port is resolved on its own."""
+    elements = [nest(pa, dg.interface(['X'], [dg.event('ea', 'in', fmls=[dg.formal('v', ['Ta'])])])),
+                dg.extern(['Ta'], 'data_a'), dg.extern(['Tb'], 'data_b')]
+    if pb != pa:
+        elements.append(nest(pb, dg.interface(['X'], [dg.event('eb', 'in', fmls=[dg.formal('v', ['Tb'])])])))
+    elements.append(nest(scope, dg.component(['C'], [dg.port('first', w1, 'provides'),
+                                                     dg.port('second', w2, 'provides')])))
+    fc = dg.parse(dg.root(elements))
+    decls = [pa] + ([pb] if pb != pa else [])
+    want = []
+    for written in (w1, w2):
+        cands = [p for p in decls if p + ['X'] in chain(scope, written)]
+        want.append(cands[0] if len(cands) == 1 else None)
+    cfg = Configuration('M.dzn', fc, 'Sh', ns_ids_t(scope + ['C']), all_mts(), FacilitiesOrigin.IMPORT, 'c')
+    try:
+        res = Builder().build(cfg)
+    except FindError:
+        return None in want
+    if None in want:
+        return False
+    header, source = res.files[0].contents, res.files[1].contents
+    for name, path in (('First', want[0]), ('Second', want[1])):
+        fqn = '::' + '::'.join(path + ['X'])
+        if f'Mts<{fqn}> Provides{name}();' not in header or f'{fqn} m_pp{name};' not in header:
+            return False
+        ev, data = ('ea', 'data_a') if path == pa else ('eb', 'data_b')
+        if f'm_pp{name}.in.{ev} = [&]({data} v) {{' not in source:
+            return False
+    return True
+
+
+def h_two_ports(si: int, w1: int, w2: int, a: int, b: int) -> bool:
+    """Two interfaces called X in two namespaces, two ports spelling their type differently."""
+    return run_native(_two_ports_case, pick(PATHS, si), pick(spellings('X'), w1), pick(spellings('X'), w2),
+                      pick(PATHS, a), pick(PATHS, b))
+
+
 # ---- formal (event parameter) types --------------------------------------------------------------------
 EXT_OPTS = [('absent', None)] + [('extern', p) for p in PATHS] + [('extern', ['a', 'I']), ('extern', ['b', 'I'])]
 
@@ -200,6 +238,11 @@ SPECS = [
       bounds='component in each of 7 namespaces (depth <= 2, 2 letters); port type spelled with 0-2 '
              'qualifiers (7 spellings); two declarations named X of any kind (interface/extern/enum) in any '
              'of the 7 namespaces or absent, plus {D2} options for a third interface'),
+    H('h_two_ports', 'deep', pre=['0 <= si < 7', '0 <= w1 < 7', '0 <= w2 < 7', '0 <= a < 7', '0 <= b < 7'],
+      quick=dict(ct=280, pt=30), thorough=dict(ct=900, pt=30),
+      shards=lambda p: [f'si == {i} and a % 2 == {j}' for i in range(7) for j in range(2)],
+      bounds='one component with two ports whose types are spelled independently (7 x 7 spellings), two '
+             'interfaces called X in any two of 7 namespaces, component in any of 7 scopes'),
     H('h_formal_type', 'deep',
       pre=['0 <= ii < 7', '0 <= wi < 8', f'0 <= d0 < {NE}', f'0 <= d1 < {NE}', '0 <= d2 < {D2}'],
       quick=dict(D2=1, ct=280, pt=30), thorough=dict(D2=NE, ct=1700, pt=30),
